@@ -219,6 +219,7 @@ def sk_id(sk):
 
 def check_property(prop, tier="quick", seed=0, only_unit=None, jobs=None, verbose=False):
     t0 = time.time()
+    os.environ["FVC_PROP"] = prop
     units.load_all()
     sel = [u for u in units.UNITS.values() if prop in u.props and (only_unit is None or u.name == only_unit)]
     if not sel:
